@@ -16,6 +16,12 @@ ID = "C03"
 def check(cd, tree, extra):
     b = ref_encode(cd, tree)
     expected = to_entity(cd, tree)
+    if len(b) % 6 == 4:
+        from ..treeprop import note
+
+        # earlier messages of this class were cut short (prefixes of a value with every tagged field present): what a
+        # failed decode leaves behind must not show in the next conforming message
+        note("preceded_by_failed_decodes", K.failed_decode_prelude(cd))
     src = io.BytesIO(b)
     try:
         got = K.entity_reader(cd.cls)(src)
